@@ -499,3 +499,81 @@ def copyFirst : List Stmt → Bool
   | _ :: sts => copyFirst sts
 
 end Inline
+
+/-! ## When the renaming cannot raise: no visible name or counter in the `<node>__` family -/
+namespace Inline
+
+/-- `x` starts with `p` -/
+def prefixed (p x : String) : Bool := p.toList.isPrefixOf x.toList
+
+/-- decidable condition on a name space: nothing visible and no counter key starts with
+    `<node>__` (what the build's own naming provides for a fresh `Inline_k`) -/
+def Space.prefixFree (s : Space) (pfx : String) : Bool :=
+  s.used.all (fun x => !prefixed (pfx ++ "__") x) &&
+  s.counters.all (fun c => !prefixed (pfx ++ "__") c.1)
+
+end Inline
+
+/-! ## `adapt_inline` (`_adapt.py`): whole-model conversion, re-renaming in a fresh scope,
+    swap-and-restore of `node.model` -/
+namespace Inline
+
+/-- `source_version != target_version` with `source_version` = the highest default-domain import of
+    the inlined model (the target itself if there is none), and only if the emitted nodes touch the
+    default domain at all -/
+def needsConversion (protoDomains : List String) (defaultImports : List Nat) (target : Nat) : Bool :=
+  (protoDomains.any fun d => d == "" || d == "ai.onnx") &&
+  (match defaultImports with
+   | [] => false
+   | v :: vs => vs.foldl max v != target)
+
+/-- `Scope.of((node, node_name), *var_names.items())`: every value name of the build, no reserved
+    names, no counters -/
+def freshCtx (c : Ctx) (varNames : List String) : Ctx :=
+  { c with var := ⟨varNames, []⟩, node := ⟨[c.nodeName], []⟩ }
+
+/-- `adapt_inline`; `conv` is `onnx.version_converter.convert_version(·, target)` on the private
+    (normalised) copy, `first` what `to_onnx` emitted during the build -/
+def adaptInline (conv : Graph → Graph) (c : Ctx) (varNames : List String) (g : Graph)
+    (first : List Node) (defaultImports : List Nat) (target : Nat) : Except Err (List Node) :=
+  if needsConversion (first.map fun n => n.op.domain) defaultImports target then
+    match toOnnx (freshCtx c varNames) (conv g) with
+    | .ok em => .ok em.nodes
+    | .error e => .error e
+  else .ok first
+
+/-- statements of the conversion branch of `adapt_inline`, as far as `node.model` is concerned -/
+inductive SStmt where
+  | saveBase      -- base_model = node.model
+  | setTarget     -- node.model = target_model
+  | emit          -- node.to_onnx(...)  (may raise)
+  | restoreBase   -- node.model = base_model
+  | other         -- does not touch node.model
+  | opaque        -- touches node.model in a way the extractor does not understand
+  | tryFinally (body fin : List SStmt)
+
+structure SW (α : Type) where
+  field : α
+  saved : Option α
+  raised : Bool
+
+mutual
+def SStmt.run {α : Type} (emitRaises : Bool) (target junk : α) : SStmt → SW α → SW α
+  | .saveBase, w => { w with saved := some w.field }
+  | .setTarget, w => { w with field := target }
+  | .emit, w => { w with raised := emitRaises }
+  | .restoreBase, w => { w with field := w.saved.getD junk }
+  | .other, w => w
+  | .opaque, w => { w with field := junk }
+  | .tryFinally body fin, w =>
+    let w1 := SStmt.runL emitRaises target junk body w
+    let w2 := SStmt.runL emitRaises target junk fin { w1 with raised := false }
+    { w2 with raised := w1.raised || w2.raised }
+def SStmt.runL {α : Type} (emitRaises : Bool) (target junk : α) : List SStmt → SW α → SW α
+  | [], w => w
+  | s :: ss, w =>
+    let w1 := SStmt.run emitRaises target junk s w
+    if w1.raised then w1 else SStmt.runL emitRaises target junk ss w1
+end
+
+end Inline
